@@ -12,6 +12,7 @@ import (
 	"fmt"
 	"time"
 
+	abci "github.com/cometbft/cometbft/abci/types"
 	sdk "github.com/cosmos/cosmos-sdk/types"
 	transfertypes "github.com/cosmos/ibc-go/v8/modules/apps/transfer/types"
 	clienttypes "github.com/cosmos/ibc-go/v8/modules/core/02-client/types"
@@ -26,6 +27,11 @@ import (
 )
 
 const pkPort = "transfer"
+
+// pkLastRecvEvents: the events the transfer stack emitted during the last ibcRecv callback (a
+// packet-forward-middleware forward sends a new packet from inside OnRecvPacket: its send_packet
+// event is the only place the forwarded packet's bytes can be read from)
+var pkLastRecvEvents []abci.Event
 
 // pkChan is one hub-side transfer channel.
 type pkChan struct {
@@ -78,6 +84,7 @@ func (f *Fix) mkChannel(n int, clientID, hubChan, cpChan string) {
 // must exist and is deleted, then the callback; a callback error fails (reverts) the whole message.)
 func (f *Fix) ibcRecv(pkt channeltypes.Packet, proofHeight uint64, relayer sdk.AccAddress) (res string) {
 	ck := f.App.IBCKeeper.ChannelKeeper
+	pkLastRecvEvents = nil
 	// core RecvPacket checks the channel state before anything else (OPEN / FLUSHING / FLUSHCOMPLETE)
 	if !f.chanAccepts(pkt.DestinationPort, pkt.DestinationChannel) {
 		return "chanClosed"
@@ -89,9 +96,12 @@ func (f *Fix) ibcRecv(pkt channeltypes.Packet, proofHeight uint64, relayer sdk.A
 		ck.SetPacketReceipt(ctx, pkt.DestinationPort, pkt.DestinationChannel, pkt.Sequence)
 		ctx = f.proofCtx(ctx, commontypes.RollappPacket_ON_RECV, pkt, proofHeight)
 		cctx, write := ctx.CacheContext()
+		cctx = cctx.WithEventManager(sdk.NewEventManager())
 		ack := f.App.TransferStack.OnRecvPacket(cctx, pkt, relayer)
+		pkLastRecvEvents = nil
 		if ack == nil || ack.Success() {
 			write()
+			pkLastRecvEvents = cctx.EventManager().ABCIEvents()
 		}
 		if ack == nil {
 			res = "async"
